@@ -13,13 +13,13 @@ import copy
 import numpy as np
 import scipy.stats as st
 import scipy.special as sp
+from sim import world  # first: puts $VERIF_REPO/src in front and loads the JAX adapter
+from sim.gfi import V, exc_violation
 import jax
 import jax.numpy as jnp
 
 import genjax
 from genjax import pjax as gpjax
-from sim import world
-from sim.gfi import V, exc_violation
 
 PROP = "C13"
 
